@@ -143,11 +143,13 @@ func (s *Server) handleConn(ctx context.Context, conn net.Conn) error {
 			return nil
 		case *pgproto3.Query:
 			start := time.Now()
+			// authorize exactly the text that is forwarded; trimQuery's 512-byte cut is for the audit log only
+			query := strings.TrimSpace(m.String)
 			trimmed := trimQuery(m.String)
-			key := cacheKey(trimmed)
+			key := cacheKey(query)
 			decision, hit := cache.get(key)
 			if !hit {
-				allowed, reason, topics, showTopics := authorizeQuery(acl, trimmed)
+				allowed, reason, topics, showTopics := authorizeQuery(acl, query)
 				decision = cacheDecision{
 					created:    time.Now(),
 					allowed:    allowed,
